@@ -29,7 +29,7 @@ def crash_or_fail(ctx, rc, out, what):
 # ------------------------------------------------------------------ storage engine family
 KV_RULE = ("programs = operation paths exported by TLC from KVStore.tla (one per distinct model state) "
            "+ seeded random programs + churn programs (uniform or skewed key choice, recycled tables freed at once or kept for an hour, Put or "
-           "PutRaw) + programs with default-size tables and entries of 40-520 KiB, executed on the real internal/kvstore; a program is "
+           "PutRaw) + programs that alternate tiny and nearly table-sized entries + programs with default-size tables and entries of 40-520 KiB, executed on the real internal/kvstore; a program is "
            "non-trivial if the store grew to >= 2 tables or a compaction step moved entries; distinct = "
            "distinct (table size, operation sequence)")
 
@@ -67,7 +67,7 @@ def kv_run(ctx, prop, design_props, what):
     env = {"VERIF_OUT": out, "VERIF_BEH": behfile, "VERIF_KV_T": 200,
            "VERIF_KV_RANDOM": 60 if quick else 1500, "VERIF_KV_RANDOM_LEN": 120 if quick else 200,
            "VERIF_KV_CHURN": 4 if quick else 60, "VERIF_KV_CHURN_LEN": 2500 if quick else 20000,
-           "VERIF_KV_BIG": 0 if quick else 2, "VERIF_KV_LARGE": 2 if quick else 30}
+           "VERIF_KV_BIG": 0 if quick else 2, "VERIF_KV_LARGE": 2 if quick else 30, "VERIF_KV_MIXED": 2 if quick else 40}
     rc, o = vlib.go_test(ctx, "kv", "TestKV", env=env, timeout=1500)
     if crash_or_fail(ctx, rc, o, "running storage programs"):
         return {"evaluations": 0, "distinct_nontrivial": 0, "rule": KV_RULE, "samples": ["crash"]}
@@ -105,9 +105,29 @@ def c11(ctx):
 
 @register("C20")
 def c20(ctx):
-    ctx.assumptions += ["maxIdleTableTimeout = 0 in churn programs so that recycled tables are freed by the compaction that emptied them"]
-    return kv_family(ctx, "C20", ["Accounting", "BoundedAfterCompaction", "CompactionProgress"],
-                     "storage accounting / boundedness")
+    quick = ctx.tier == "quick"
+    ctx.assumptions += ["half of the churn programs free recycled tables at once (maxIdleTableTimeout = 0), the other half keep them for an hour",
+                        "the fragments of the cluster part are read through the verif-tagged accessor dmap.VerifStats"]
+    cov = kv_run(ctx, "C20", ["Accounting", "BoundedAfterCompaction", "CompactionProgress"], "storage accounting / boundedness")
+    # the same bound on real members whose own compaction worker and janitor do the work, for primary AND backup fragments
+    out = ctx.dir("drv")
+    rc, o = vlib.go_test(ctx, "reg", "TestC20Cluster", env={"VERIF_OUT": out, "VERIF_C20_ROUNDS": 3000 if quick else 40000}, timeout=1500)
+    if crash_or_fail(ctx, rc, o, "churning a cluster"):
+        return vlib.finish(ctx, cov)
+    summ = json.load(open(os.path.join(out, "c20c.summary.json")))
+    acc, fails = vlib.validate_chunks(ctx, "FragmentTrace", "FragmentTrace.cfg", os.path.join(out, "c20c.ndjson"), consts={}, name="c20cluster")
+    ctx.traces += acc
+    for seq_lines, line, msg in fails:
+        head = json.loads(seq_lines[0])
+        vlib.report_failure(ctx, "storage accounting / boundedness on a cluster: %s [%s]" % (msg, head.get("cfg")), {"kind": "fragment", "msg": msg.split(":")[0]},
+                            {"reset": head, "fragment": json.loads(seq_lines[line - 1])})
+    cov["evaluations"] += summ["evaluations"]
+    cov["distinct_nontrivial"] += summ["distinct_nontrivial"]
+    cov["cluster_fragments_checked"] = summ["distinct_nontrivial"]
+    cov["cluster_configs"] = summ.get("configs")
+    cov["rule"] += ("; plus churn (Put, Put with a 30 ms expiry, Delete over 40 keys) on real clusters N in 1..3, R in 1..2 with small tables whose members run their own "
+                    "compaction worker and janitor every 25 ms, after which every primary and backup fragment's statistics are read white box and held against the same bound")
+    return vlib.finish(ctx, cov)
 
 
 @register("C12")
